@@ -404,3 +404,86 @@ func VerifC15_PushBlobScripted() {
 func init() {
 	verifRegister("VerifC15_PushBlobScripted", VerifC15_PushBlobScripted)
 }
+
+// c15upload is a scripted member-side upload session.
+type c15upload struct {
+	id        string
+	data      []byte
+	committed bool
+	closed    int
+}
+
+type c15writer struct {
+	u *c15upload
+}
+
+func (w *c15writer) Write(p []byte) (int, error) { w.u.data = append(w.u.data, p...); return len(p), nil }
+func (w *c15writer) Close() error                { w.u.closed++; return nil }
+func (w *c15writer) Cancel() error               { return nil }
+func (w *c15writer) Size() int64                 { return int64(len(w.u.data)) }
+func (w *c15writer) ChunkSize() int              { return 1 }
+func (w *c15writer) ID() string                  { return w.u.id }
+func (w *c15writer) Commit(d ociregistry.Digest) (ociregistry.Descriptor, error) {
+	w.u.committed = true
+	return ociregistry.Descriptor{MediaType: "application/octet-stream", Digest: d, Size: int64(len(w.u.data))}, nil
+}
+
+// upload ids as registries hand them out: opaque tokens, paths, URLs with a query
+// string, with punctuation at every alignment
+var c15ids = []string{"0123abcd", "up-1", "/v2/r/blobs/uploads/1?_state=abc", "a?", "ab?", "abc?", "~x~", "é", "x y", `q"uote`, ""}
+
+// VerifC15_ChunkedResume: a chunked upload through the unifier with a close-and-resume
+// in the middle: the id the unified writer reports is accepted by the unifier's resume,
+// each member is resumed with its own id and offset, both receive all the bytes and both
+// commit - for member upload ids of every shape.
+func VerifC15_ChunkedResume() {
+	mk := func(id string) (*c15upload, ociregistry.Interface) {
+		up := &c15upload{id: id}
+		return up, &ociregistry.Funcs{
+			PushBlobChunked_: func(ctx context.Context, repo string, chunkSize int) (ociregistry.BlobWriter, error) {
+				return &c15writer{u: up}, nil
+			},
+			PushBlobChunkedResume_: func(ctx context.Context, repo, rid string, offset int64, chunkSize int) (ociregistry.BlobWriter, error) {
+				verifAssert(rid == up.id, "member-resumed-with-its-own-upload-id")
+				verifAssert(offset == -1 || offset == int64(len(up.data)), "member-resumed-at-its-own-offset")
+				return &c15writer{u: up}, nil
+			},
+		}
+	}
+	// the subject is the upload-id codec, not the order in which the two members are
+	// driven (explored by the other C15 harnesses): one schedule
+	verifFixedSchedule(true)
+	up0, m0 := mk(c15ids[verifChoose("id0", len(c15ids))])
+	up1, m1 := mk(c15ids[verifChoose("id1", len(c15ids))])
+	u := New(m0, m1, &Options{ReadPolicy: ReadPolicy(verifChoose("policy", 2))})
+	ctx := context.Background()
+	w, err := u.PushBlobChunked(ctx, "r", 0)
+	verifAssert(err == nil, "upload-starts")
+	n, err := w.Write([]byte("ab"))
+	verifAssert(err == nil && n == 2, "first-write")
+	id := w.ID()
+	size := w.Size()
+	verifAssert(w.Close() == nil, "close")
+	off := size
+	if verifBool("askForOffset") {
+		off = -1
+	}
+	w2, err := u.PushBlobChunkedResume(ctx, "r", id, off, 0)
+	verifAssert(err == nil, "the-unifiers-own-upload-id-resumes")
+	if err != nil {
+		return
+	}
+	verifAssert(w2.Size() == 2, "resumed-writer-reports-the-size")
+	n, err = w2.Write([]byte("c"))
+	verifAssert(err == nil && n == 1, "second-write")
+	_, err = w2.Commit("sha256:abc")
+	verifAssert(err == nil, "commit")
+	verifAssert(string(up0.data) == "abc" && string(up1.data) == "abc", "both-members-receive-all-the-bytes")
+	verifAssert(up0.committed && up1.committed, "both-members-commit")
+	verifAssert(verifQuiesce() == 0, "no-goroutine-left-behind")
+	verifCover("end")
+}
+
+func init() {
+	verifRegister("VerifC15_ChunkedResume", VerifC15_ChunkedResume)
+}
